@@ -270,6 +270,9 @@ func genC11Case() *rapid.Generator[C11Case] {
 			if r.API == "pull" {
 				r.PathVar = rapid.SampledFrom([]string{"", "", "", "dslash", "trailing", "dot", "dotdot", "dotdot-other"}).Draw(t, "path_var")
 			}
+			if r.API == "worker" {
+				r.PathVar = rapid.SampledFrom([]string{"", "", "", "", "dslash", "trailing", "dot", "dotdot", "dotdot-other", "space"}).Draw(t, "path_var")
+			}
 			r.Cred.Kind = rapid.SampledFrom([]string{"absent", "bearer", "bearer", "bearer", "lower", "upper", "basic", "noscheme", "spaces", "tab", "trailing", "leading"}).Draw(t, "ckind")
 			r.Cred.Src = rapid.SampledFrom([]string{"own", "own", "global", "other", "admin", "none"}).Draw(t, "csrc")
 			r.Cred.Idx = rapid.IntRange(0, 2).Draw(t, "cidx")
@@ -426,6 +429,23 @@ func runC11(c C11Case, _ bool) *fOutcome {
 			gotItems = strings.Contains(rec.Body.String(), `"lease_id"`)
 		case "worker":
 			ep := fmt.Sprintf("/pull/r%d", r.Route)
+			switch r.PathVar {
+			case "dslash":
+				ep = fmt.Sprintf("//pull//r%d", r.Route)
+			case "trailing":
+				ep += "/"
+			case "dot":
+				ep += "/."
+			case "dotdot":
+				ep = fmt.Sprintf("/pull/x/../r%d", r.Route)
+			case "dotdot-other":
+				ep = fmt.Sprintf("/pull/r%d/../r%d", (r.Route+1)%(len(c.Routes)+1), r.Route)
+			case "space":
+				ep = " " + ep + " "
+			}
+			if r.PathVar != "" {
+				out.Labels["non-canonical-worker-endpoint"] = true
+			}
 			lease := leases[r.Route]
 			if lease == "" {
 				lease = "lease_unknown"
@@ -460,6 +480,11 @@ func runC11(c C11Case, _ bool) *fOutcome {
 			}
 			code := status.Code(err)
 			unauth = code == codes.Unauthenticated
+			// a non-canonical spelling of an endpoint may also simply not exist on this transport:
+			// what matters is that a caller outside the allowlist of the endpoint it spells gets nothing done
+			if r.PathVar != "" && code == codes.NotFound {
+				unauth = true
+			}
 			stCode = int(code)
 		case "admin":
 			var epi int
@@ -535,6 +560,9 @@ func runC11(c C11Case, _ bool) *fOutcome {
 				out.Failure = ffail("C11", "unauthorized-had-effect", i, "%s request %s with credentials %q changed the queue or returned items", r.API, reqJSON(r), values)
 				return out
 			}
+		case strict && r.API == "worker" && r.PathVar != "":
+			// whether a non-canonical spelling names the endpoint at all on this transport is not specified
+			out.Labels["worker-non-canonical-authorized"] = true
 		case strict:
 			out.Labels["must-accept"] = true
 			if unauth && !(r.API == "pull" && r.Method != "" && r.Method != "POST") {
